@@ -70,7 +70,10 @@ class SubmitUnit(Unit):
         st = St()
         self.fn = z3.Const('fn', Val)
         self.args, self.kw = StarPack(z3.Const('args', Val)), KwPack(z3.Const('kwargs', Val))
-        st.env.update(self=Rec(ex, 'self'), fn=self.fn, args=self.args, kwargs=self.kw, loud_exception=z3.Bool('loud_exception'))
+        # the stdlib executor's own state, should the wrapper look at it: arbitrary
+        me = Rec(ex, 'self').init(st, _shutdown=z3.Bool('executor_shutdown'), _broken=z3.Const('executor_broken', Val), _threads=z3.Const('executor_threads', Val),
+                                  _processes=z3.Const('executor_processes', Val), _max_workers=z3.Int('executor_max_workers'))
+        st.env.update(self=me, fn=self.fn, args=self.args, kwargs=self.kw, loud_exception=z3.Bool('loud_exception'))
         self.loudf = z3.Const('the_loud_function', Val)
         ex.globals[self.loud_name] = self.loudf
         st.ghost['nsubmit'] = z3.IntVal(0)
@@ -83,11 +86,21 @@ class SubmitUnit(Unit):
                 s = s.fork()
                 s.ghost['nsubmit'] = s.ghost['nsubmit'] + 1
                 pack = k.get('**')
+                # the stdlib submit ENQUEUES the work item and then tries to grow the pool: it may raise RuntimeError (shut down; "can't start new thread") -- in the
+                # second case AFTER the item was enqueued.  So a raise does not mean "nothing was submitted".
+                boom = fresh('submit_runtime_error')
+                s_bad = s.fork().assume(V.isinst(boom, 'RuntimeError'), *V.cls_facts(boom))
+                s_bad.ghost['submit_exc'] = boom
+                bad = [('raise', s_bad, boom)]
+                head = getattr(a[1], 'head', None) if len(a) == 2 and isinstance(a[1], StarPack) else None
+                if head and len(head) >= 1 and isinstance(pack, KwPack) and len(k) == 1 and box(ex, a[0]).eq(self.loudf) and len(head) == 1:
+                    # submit(_loud, *(fn, *args), **kwargs): the same call as submit(_loud, fn, *args, **kwargs)
+                    return [('ok', s, std_submit(loud(box(ex, head[0])), a[1].tail.val, pack.val))] + bad
                 if len(a) == 2 and isinstance(a[1], StarPack) and isinstance(pack, KwPack) and len(k) == 1:
-                    return [('ok', s, std_submit(box(ex, a[0]), a[1].val, pack.val))]
+                    return [('ok', s, std_submit(box(ex, a[0]), a[1].val, pack.val))] + bad
                 if len(a) == 3 and isinstance(a[2], StarPack) and isinstance(pack, KwPack) and len(k) == 1 and box(ex, a[0]).eq(self.loudf):
                     # submit(_loud, fn, *args, **kwargs): by the _loud_* contract this has the outcome of fn(*args, **kwargs)
-                    return [('ok', s, std_submit(loud(box(ex, a[1])), a[2].val, pack.val))]
+                    return [('ok', s, std_submit(loud(box(ex, a[1])), a[2].val, pack.val))] + bad
                 s.ghost['bad_submit'] = True
                 return [('ok', s, fresh('bad_future'))]
             return ex.bind(ex.evargs(e, st), f)
@@ -101,7 +114,8 @@ class SubmitUnit(Unit):
                 ex.oblige(s, 'exit: with the same function and arguments (wrapped in the loud function iff loud_exception), and that future is returned',
                           z3.And(z3.BoolVal(not s.ghost.get('bad_submit', False)), box(ex, p) == want))
             else:
-                ex.oblige(s, 'exit: never raises', False)
+                ex.oblige(s, 'exit(raise): only what the stdlib submit itself raised -- and the work was handed over ONCE (the stdlib may have enqueued it before failing to start a thread: '
+                             'submitting again would run the call twice)', z3.And(s.ghost['nsubmit'] == 1, p == s.ghost.get('submit_exc', NONE)))
 
 
 class SubmitUnitProcess(SubmitUnit):
